@@ -735,15 +735,21 @@ def applySortRule (fnm : Fnm) (r : SortRule) : List FileEnt → List FileEnt
           if r.doGlob then f' :: applySortRule fnm r fs else f' :: fs
         else f :: applySortRule fnm r fs
 
-/-- the scan of one round of `sort_file_list`: `low` moves to a later node only if its priority is strictly lower -/
+/-- the scan of one round of `sort_file_list`: `low` starts at the head of the list and moves to a later node only if
+that node's priority is strictly lower — so it ends on the first node that carries the lowest priority -/
 def lowestFile : FileEnt → List FileEnt → FileEnt
   | low, [] => low
   | low, it :: rest => if it.prio < low.prio then lowestFile it rest else lowestFile low rest
 
-/-- unlink the node `sort_file_list` selected: the first one carrying the lowest priority -/
-def unlinkFirst (p : Int) : List FileEnt → List FileEnt
-  | [] => []
-  | f :: fs => if f.prio = p then fs else f :: unlinkFirst p fs
+/-- unlink the first node that carries priority `p` (the node `low` points to at the end of the scan); every other
+node stays where it is -/
+def takeFirst (p : Int) : List FileEnt → Option (FileEnt × List FileEnt)
+  | [] => none
+  | f :: fs =>
+      if f.prio = p then some (f, fs)
+      else match takeFirst p fs with
+        | none => none
+        | some (x, rem) => some (x, f :: rem)
 
 /-- `sort_file_list`: repeatedly move the first node of lowest priority to the end of the output list
 (`fuel` = number of nodes) -/
@@ -751,8 +757,9 @@ def sortFileList : Nat → List FileEnt → List FileEnt
   | 0, _ => []
   | _, [] => []
   | fuel + 1, f :: fs =>
-      let low := lowestFile f fs
-      low :: sortFileList fuel (unlinkFirst low.prio (f :: fs))
+      match takeFirst (lowestFile f fs).prio (f :: fs) with
+      | none => []          -- not reachable: `low` is a node of the list
+      | some (x, rem) => x :: sortFileList fuel rem
 
 /-- `fstree_sort_files`: reset priority/flags, apply the lines of the sort file in order, `sort_file_list` -/
 def sortFiles (fnm : Fnm) (rules : List SortRule) (files : List Path) : List FileEnt :=
